@@ -76,6 +76,13 @@ pub struct Strata<'a> {
 }
 
 pub fn arg(ctx: &mut Ctx, s: &Strata) -> Dd {
+    if ctx.chance(1, 12) {
+        if let Some(d) = derived_operand(ctx, s.emin, s.emax) {
+            if d.hi != 0.0 && (!s.positive_only || d.hi > 0.0) {
+                return d;
+            }
+        }
+    }
     let c = ctx.weighted(&[5, 5, 5]);
     let hi = match c {
         0 => {
